@@ -79,7 +79,14 @@ func (r *Result) Sample(s string) {
 func (r *Result) Fail(f Failure) {
 	f.Stream = r.Stream
 	r.mu.Lock()
-	if len(r.Failures) < 50 {
+	// at most 50 per kind, so that many correspondence diffs cannot crowd out an oracle failure
+	n := 0
+	for _, g := range r.Failures {
+		if g.Kind == f.Kind {
+			n++
+		}
+	}
+	if n < 50 {
 		r.Failures = append(r.Failures, f)
 	}
 	r.mu.Unlock()
@@ -118,6 +125,9 @@ func (r *Result) JSON() resultJSON {
 	fs := r.Failures
 	if fs == nil {
 		fs = []Failure{}
+	}
+	if r.Samples == nil {
+		r.Samples = []string{}
 	}
 	return resultJSON{r.Stream, r.Rule, r.Evaluations, r.NumNontrivial(), d, r.Samples, fs}
 }
